@@ -981,6 +981,11 @@ func (g *G) infoFor(ty string, val *Node) *vinfo {
 }
 
 func (g *G) block(max int) *Node {
+	if g.pct("emptyblock", 7) {
+		// `{ }`: the parser leaves an empty block as a nil body, which is easy to mistake for "no block"
+		g.event("empty-block")
+		return Block()
+	}
 	g.push()
 	g.nest++
 	b := Block()
@@ -1620,8 +1625,16 @@ func (g *G) queryVal(ty string, valid bool) string {
 	}
 	switch ty {
 	case "int":
+		if g.pct("qiodd", 6) {
+			return g.pick("qio", []string{"9223372036854775807", "-9223372036854775808", "007", "+5", "9007199254740993"})
+		}
 		return g.pick("qi", []string{"0", "5", "-3", "42"})
 	case "float":
+		if g.pct("qfodd", 8) {
+			// all of these are floats to strconv.ParseFloat, and so to a declared float parameter
+			g.event("special-float-from-request")
+			return g.pick("qfo", []string{"NaN", "Inf", "-Inf", "1e308", "-0", "1e-320", ".5", "5.", "nan", "+Inf"})
+		}
 		return g.pick("qf", []string{"1.5", "2", "-0.25"})
 	case "bool":
 		return g.pick("qb", []string{"true", "false", "1", "no", "ON"})
